@@ -616,13 +616,65 @@ func embMethodsProgram() Program {
 	return Program{Pkg: "vm1", Files: map[string][]byte{"types.go": []byte(embMethodsTypes)}, Harness: map[string][]byte{"zz_verif_harness.go": []byte(embMethodsHarness)}, Desc: "fixed: embedded types with methods named like generated members"}
 }
 
+// Option fields over directional channel types (and a plain receive-only channel field): the payload type is
+// rendered from go/types (direction included) in WithSomeF/WithNoneF, the builder's SomeF/NoneF and FromMap.
+const chanDirTypes = `package vc1
+
+import "github.com/csgura/fp"
+
+//go:generate gombok
+
+var _ fp.Unit
+
+// @fp.Value
+type Pipes struct {
+	in   fp.Option[<-chan int]
+	out  fp.Option[chan<- int]
+	both fp.Option[chan int]
+	raw  <-chan int
+	n    int
+}
+`
+
+const chanDirHarness = `package vc1
+
+import (
+	"github.com/csgura/fp"
+	zz "scratchmod/zzverif"
+)
+
+func VH_c07_vc1_option_of_directional_channels() {
+	c1, c2 := make(chan int, 1), make(chan int, 1)
+	var r <-chan int = c1
+	var w chan<- int = c2
+	n := zz.Int("n")
+	x := Pipes{raw: r, n: n}
+	a := x.WithSomeIn(r)
+	zz.Assert(a.in.IsDefined() && a.in.Get() == r && a.out.IsEmpty() && a.both.IsEmpty() && a.n == n && a.raw == r, "WithSomeIn sets the receive-only channel and nothing else")
+	b := a.WithSomeOut(w).WithSomeBoth(c1)
+	zz.Assert(b.out.IsDefined() && b.out.Get() == w && b.both.IsDefined() && b.both.Get() == c1 && b.in.Get() == r, "WithSomeOut / WithSomeBoth")
+	c := b.WithNoneIn().WithNoneOut()
+	zz.Assert(c.in.IsEmpty() && c.out.IsEmpty() && c.both.IsDefined() && c.n == n, "WithNoneIn / WithNoneOut")
+	var o fp.Option[<-chan int] = b.In()
+	zz.Assert(o.IsDefined() && o.Get() == r && b.Raw() == r, "getters return the fields")
+	d := x.Builder().SomeIn(r).SomeOut(w).NoneBoth().Build()
+	zz.Assert(d.in.Get() == r && d.out.Get() == w && d.both.IsEmpty() && d.n == n && d.raw == r, "builder SomeIn/SomeOut/NoneBoth")
+	e := PipesBuilder{}.FromMap(b.AsMap()).Build()
+	zz.Assert(e.in.IsDefined() && e.in.Get() == r && e.out.Get() == w && e.both.Get() == c1 && e.n == n && e.raw == r, "FromMap(AsMap(x)) = x")
+}
+`
+
+func chanDirProgram() Program {
+	return Program{Pkg: "vc1", Files: map[string][]byte{"types.go": []byte(chanDirTypes)}, Harness: map[string][]byte{"zz_verif_harness.go": []byte(chanDirHarness)}, Desc: "fixed: Option fields over directional channel types"}
+}
+
 // ValuePrograms returns the scratch programs of C07 for the tier and seed.
 func ValuePrograms(tier string, seed int) []Program {
 	var out []Program
 	for i, ss := range fixedPrograms() {
 		out = append(out, mkProgram(fmt.Sprintf("v%02d", i), ss, "fixed"))
 	}
-	out = append(out, embMethodsProgram())
+	out = append(out, embMethodsProgram(), chanDirProgram())
 	nrand := 10
 	if tier == "thorough" {
 		nrand = 60
